@@ -463,11 +463,14 @@ class DocumentationAggregator(CMakeListener):
             return
 
         name = ""
+        name_positions = []
         for i in range(0, len(params)):
             param = params[i]
             if param.upper() == "NAME":
                 try:
                     name = params[i + 1]
+                    # Positions of the NAME keyword and of the name itself
+                    name_positions = [i, i + 1]
                 except IndexError:
                     pretty_text = docstring
                     pretty_text += f"\n{ctx.getText()}"
@@ -475,7 +478,9 @@ class DocumentationAggregator(CMakeListener):
                     self.logger.error(f"add_test() called with incorrect parameters: {params}\n\n{pretty_text}")
                     return
 
-        test_doc = CTestDocumentation(name, docstring, [p for p in params if p != name and p != "NAME"])
+        # Filter by position, other arguments may be equal to the test name
+        other_params = [p for i, p in enumerate(params) if i not in name_positions]
+        test_doc = CTestDocumentation(name, docstring, other_params)
         self.documented.append(test_doc)
 
     def process_option(self, ctx: CMakeParser.Command_invocationContext, docstring: str) -> None:
